@@ -1,5 +1,6 @@
 import GqlProofs.Json.RoundTrip
 import GqlProofs.Json.ParsedClean
+import GqlProofs.EndToEnd.LexClean
 /-
   C19 — "Encoding any parsed executable document to JSON and decoding it back yields a document
   with the same operations, fragments and selections: fields stay fields, fragment spreads stay
@@ -21,7 +22,9 @@ import GqlProofs.Json.ParsedClean
   every byte string it puts into the tree is a token value or a constant): if every token the LEXER
   model produces from the source has a well-formed UTF-8 value (`sourceCleanB inp`, executable, or
   `LexClean`), then whatever `parseQuery` returns is well-formed, hence round-trips
-  (`C19_parsed_roundtrip`).  ASSUMED, NOT PROVED: that the lexer model's token values are
+  (`C19_parsed_roundtrip`).  PROVED SINCE (section END TO END at the bottom of this file,
+  `C19_valid_source_clean`, `C19_source_roundtrip`; proof in `GqlProofs/EndToEnd/LexClean.lean` from the
+  lexer = specification theorems of C03): the lexer model's token values are
   well-formed UTF-8 whenever the source text is valid UTF-8.  (Names and numbers are ASCII; quoted
   and block strings and comments are copied byte by byte between ASCII delimiters, and `\uXXXX`
   escapes are written with `WriteRune`, which never emits ill-formed bytes.)  Check C19 tests the
@@ -278,3 +281,38 @@ example : (docSelAt c19Witness (.op 0) 2 [0]).map kindOf = some SelKind.field :=
 /-- the source-level hypothesis is satisfiable (kernel-evaluated on a tiny source; check C19
     evaluates `sourceCleanB` with the compiled driver on every source it parses) -/
 example : sourceCleanB (str "{a}") = true := by decide
+
+
+/- ======================= END TO END: over source texts ======================= -/
+
+/-- The hypothesis `sourceCleanB inp` of `C19_parsed_roundtrip` holds for EVERY well-formed UTF-8
+    source: each token value the lexer model produces is `utf8Encode` of a list of code points (the
+    specification's token value, `C03_step_utf8` / `C03_block_utf8` and `blockStringValue_enc` for
+    block strings), and `utf8Encode` only writes well-formed UTF-8 (a `\uXXXX` escape naming a
+    surrogate is written as U+FFFD). -/
+theorem C19_valid_source_clean (inp : Bytes) (h : Lexer.Utf8.valid inp) : sourceCleanB inp = true :=
+  Gql.EndToEnd.valid_source_clean inp h
+
+/-- … in the propositional form (all tokens ever read from any cursor) -/
+theorem C19_valid_source_lexClean (inp : Bytes) (h : Lexer.Utf8.valid inp) : Parser.LexClean inp Lexer.Cur.init :=
+  Gql.EndToEnd.valid_source_lexClean inp h _
+
+/-- every document parsed from a well-formed UTF-8 source satisfies the well-formedness predicate -/
+theorem C19_source_document_wellformed (limit : Nat) (inp : Bytes) (d : QueryDoc) (h : Lexer.Utf8.valid inp)
+    (hp : Parser.parseQuery limit inp = .ok d) : utf8CleanB d = true :=
+  C19_parsed_document_wellformed limit inp d (C19_valid_source_clean inp h) hp
+
+/-- **C19 END TO END**: parse a well-formed UTF-8 source text (with or without token limit), encode the
+    document to JSON, decode it: the same document comes back, positions aside.  No hypothesis on the
+    document is left; for a source that is NOT well-formed UTF-8 the statement fails
+    (`C19_roundtrip_illformed_utf8_counterexample`). -/
+theorem C19_source_roundtrip (limit : Nat) (inp : Bytes) (d : QueryDoc) (h : Lexer.Utf8.valid inp)
+    (hp : Parser.parseQuery limit inp = .ok d) :
+    decodeQueryDoc (encodeQueryDoc d) = .ok (stripDoc d) :=
+  C19_parsed_roundtrip limit inp d (C19_valid_source_clean inp h) hp
+
+/-- non-vacuity: a non-ASCII source (`{a(s:"é")}`) is valid UTF-8 -/
+example : Lexer.Utf8.valid (str "{a(s:\"" ++ [0xC3, 0xA9] ++ str "\")}") := by unfold Lexer.Utf8.valid; decide
+
+#print axioms C19_valid_source_clean
+#print axioms C19_source_roundtrip
